@@ -270,8 +270,10 @@ let get_all_fast (t : ty) (n : node) : istep list =
     List.rev !out
   | Err -> [IErr] | Panic -> [IPanic]
 
+let c17_extra = ref 3
 let c17 h zh tys vals =
   let t = ty_of tys and v = val_of vals in
+  let rec ends k = if k = 0 then [] else IEnd :: ends (k - 1) in
   match from_val zh t v with
   | OK n ->
     let fv = match t with
@@ -279,9 +281,9 @@ let c17 h zh tys vals =
         let l = ro_iter t n O in
         if List.exists (function IErr | IPanic -> true | _ -> false) l then "ERR" else show_steps h l
       | _ -> "-" in
-    Printf.sprintf "ro=%s ix=%s get=%s fv=%s" (show_steps h (ro_iter t n (nat_of_int 3)))
+    Printf.sprintf "ro=%s ix=%s get=%s fv=%s" (show_steps h (ro_iter t n (nat_of_int !c17_extra)))
       (let g = get_all_fast t n in
-       if g = [IErr] || g = [IPanic] then show_steps h g else show_steps h (g @ [IEnd; IEnd; IEnd]))
+       if g = [IErr] || g = [IPanic] then show_steps h g else show_steps h (g @ ends !c17_extra))
       (show_steps h (get_all_fast t n)) fv
   | Err -> "ro=ERR ix=ERR get=ERR" | Panic -> "ro=PANIC ix=PANIC get=PANIC"
 
@@ -520,6 +522,9 @@ let dispatch set_cfg cur_h cur_zh (op : string) (args : string list) : string =
   | "c09", [t; v; prev] -> c09 t v prev
   | "c10", [t; data] -> c10 t data
   | "c17", [t; v] -> set_cfg "sha"; c17 !cur_h !cur_zh t v
+  | "c17x", [t; v; extra] ->
+    set_cfg "sha"; c17_extra := int_of_string extra;
+    let r = c17 !cur_h !cur_zh t v in c17_extra := 3; r
   | "ascast", [helper; t; v; mode] -> set_cfg "sha"; ascast !cur_h !cur_zh helper t v mode
   | ("bfb" | "bvb" | "bitb" | "bitg" | "boolb" | "boolg"), _ -> prim op args
   | "woff", [prev; size] -> woff prev size
